@@ -6,11 +6,14 @@ import (
 	"encoding/json"
 	"fmt"
 	"sort"
+	"strings"
 
 	"pault.ag/go/debian/version"
 
 	"verifharness/gen"
 	"verifharness/mc"
+	"verifharness/props/c01"
+	"verifharness/sched"
 	"verifharness/props/reg"
 )
 
@@ -204,6 +207,36 @@ func Run(r *mc.Run) {
 			return true
 		})
 
+	// long letter and digit runs (word-at-a-time widths): all triples over a thinned family
+	var lrv []V3
+	for i, t := range gen.LongRunStrings() {
+		if i%3 == 0 {
+			lrv = append(lrv, V3{0, t, ""})
+		} else if i%3 == 1 && !strings.Contains(t, ":") {
+			lrv = append(lrv, V3{0, "1", strings.ReplaceAll(t, "-", ".")})
+		}
+	}
+	r.Scenario("order-laws-long-runs", map[string]interface{}{"values": len(lrv), "shape": "letter and digit runs of 7..17 characters, as upstream part and as revision"}, len(lrv), func(i int, st *mc.Stats) bool {
+		for j := range lrv {
+			for k := range lrv {
+				st.Evals++
+				if i != j && j != k && i != k {
+					st.Nontrivial++
+				}
+				if v := checkTriple("order-laws-long-runs", TripleIn{lrv[i], lrv[j], lrv[k]}); v != nil {
+					st.Violate(v)
+					st.Class("law-broken:" + v.Clause)
+				}
+			}
+		}
+		st.States++
+		st.Transitions += int64(len(lrv)) * int64(len(lrv))
+		return true
+	})
+
+	// comparisons and sorts made at the same time: every schedule of small thread programs (instrumented build)
+	sched.Explore(r, "concurrent-comparisons", c01.ConcurrentPrograms())
+
 	large := largeSlices()
 	r.Scenario("sort-large-slices", map[string]interface{}{"slices": len(large), "lengths": "13..90", "family": "rotations, reversal, adjacent transpositions, stride interleavings, duplicates of a 45-element chain with equal-but-different spellings"}, len(large), func(i int, st *mc.Stats) bool {
 		st.Evals++
@@ -321,6 +354,9 @@ func largeSlices() [][]V3 {
 }
 
 func Replay(scenario string, raw json.RawMessage) []*mc.Violation {
+	if scenario == "concurrent-comparisons" {
+		return sched.Replay(scenario, c01.ConcurrentPrograms(), raw)
+	}
 	var out []*mc.Violation
 	if scenario == "sort-all-sequences" || scenario == "sort-large-slices" {
 		var in SortIn
